@@ -301,6 +301,12 @@ func (gb *gcpBalancer) UpdateClientConnState(ccs balancer.ClientConnState) error
 		scRef.subConn.UpdateAddresses(addrs)
 		scRef.subConn.Connect()
 	}
+	// Replacement SubConns of refreshes in progress join the pool later; they
+	// must not keep the outdated addresses.
+	for sc := range gb.refreshingScRefs {
+		sc.UpdateAddresses(addrs)
+		sc.Connect()
+	}
 
 	return nil
 }
